@@ -20,7 +20,7 @@ RULE = ('Batches of generated coarse-grained molecules: 1-6 particles, each with
         'coordinate scale 1..1e4; plus particles produced by the real do_mapping on synthetic force fields. Every '
         'molecule is run twice (original and rigidly moved frame). Non-trivial particle = >= 2 positioned '
         'constituents with unequal effective weights and >= 1 constituent without position or with weight 0; '
-        'distinct = distinct (constituent keys, weights, positions) hashes.')
+        'distinct = distinct (constituent keys, weights, positions) hashes. Also: one processor object first run on a primer molecule whose force field configures the centre weight differently.')
 ASSUMPTIONS = ['weights are 0 or >= 1e-3 (the code treats |sum| < 1e-7 as zero, which the statement permits only for '
                'genuinely zero sums)', 'tolerance 1e-9 x (1 + largest |coordinate|)']
 MIN_HITS = {'quick': 20000, 'thorough': 800000}
